@@ -16,6 +16,11 @@
 (***************************************************************************)
 EXTENDS Naturals, Integers, Sequences, FiniteSets, TLC, Json
 
+CONSTANTS MaxOps,     \* bound on the history length
+          UnitKinds,  \* which stack-neutral units may be inserted ({} = structure-only histories)
+          Sigs,       \* which signatures typed blocks may have (subset of {1, 2}; {} = none)
+          MaxPos      \* insertion positions 0..MaxPos
+
 VARIABLES seqs, attached, hist
 bvars == <<seqs, attached, hist>>
 
@@ -72,7 +77,8 @@ LabelArity(t) == IF SigOf(t) = 0 THEN 0 ELSE IF SigOf(t) = 1 THEN 1 ELSE IF IsLo
 \* a branch is only placed where the operand stack certainly holds what the label wants: any label without operands, or
 \* the very start of the (i32) -> (i32) sequence the branch sits in (exactly its parameter is on the stack there; later
 \* insertions in front of it are stack-neutral, insertions elsewhere may leave an i64 on top)
-BranchFits(sq, pos, target) == LabelArity(target) = 0 \/ (sq = target /\ SigOf(target) = 1 /\ pos = 0)
+\* (Sigs = {}: no sequence has a signature, nothing needs to be looked up)
+BranchFits(sq, pos, target) == Sigs = {} \/ LabelArity(target) = 0 \/ (sq = target /\ SigOf(target) = 1 /\ pos = 0)
 
 \* const 1 ; if_else_at: two new sequences
 NewIfElse(sq, pos) ==
@@ -102,7 +108,7 @@ AttachIf(sq, pos, d1, d2) ==
 
 \* const 0 ; br_table [t1] t2 : two enclosing sequences
 BrTable(sq, pos, t1, t2) ==
-  /\ t1 \in Ancestors(sq) /\ t2 \in Ancestors(sq) /\ LabelArity(t1) = 0 /\ LabelArity(t2) = 0
+  /\ t1 \in Ancestors(sq) /\ t2 \in Ancestors(sq) /\ (Sigs = {} \/ (LabelArity(t1) = 0 /\ LabelArity(t2) = 0))
   /\ seqs' = Ins(sq, pos, <<Node("const32", 0, -1), Node("brtable", t1, t2)>>)
   /\ UNCHANGED attached
   /\ hist' = Append(hist, [op |-> "brtable", seq |-> sq, pos |-> pos, kind |-> "", v |-> t2, d |-> t1])
@@ -114,10 +120,6 @@ Branch(sq, pos, target, cond) ==
   /\ UNCHANGED attached
   /\ hist' = Append(hist, [op |-> (IF cond THEN "brif" ELSE "br"), seq |-> sq, pos |-> pos, kind |-> "", v |-> 0, d |-> target])
 
-CONSTANTS MaxOps,     \* bound on the history length
-          UnitKinds,  \* which stack-neutral units may be inserted ({} = structure-only histories)
-          Sigs,       \* which signatures typed blocks may have (subset of {1, 2}; {} = none)
-          MaxPos      \* insertion positions 0..MaxPos
 Init == seqs = << <<>> >> /\ attached = {0} /\ hist = <<>>
 Next ==
   /\ Len(hist) < MaxOps
